@@ -1,7 +1,7 @@
 """C02 — emitted solutions satisfy every hard constraint (re-judged from scratch on a rebuilt tree).
 Same executions as C01 (C) plus the operator closure; oracle = RefConstraint + recount of computed repetitions."""
 from mc import evo
-from mc.common import Ctx
+from mc.common import Ctx, pmap_tagged
 
 LEVEL = "model_checking"
 
@@ -31,7 +31,7 @@ def direct(ctx: Ctx) -> dict:
     for which in c07.GRAMMARS:
         n = len(c07.formulas(which, "quick"))
         items += [(which, i) for i in range(0, n, 1 if not ctx.quick else 2)]
-    results = pmap(direct_work, items, chunk=4)
+    results = pmap_tagged(direct_work, items, chunk=4)
     st = tr = acc = 0
     for r in results:
         st += r["pairs"]
